@@ -40,7 +40,10 @@ class ConveyorOracle:
         self.aligned = True       # every put and get so far happened at an integer multiple of the step
         self.cancel_times = []    # instants at which a granted retrieval was cancelled (the belt is not told)
         self._ncanc = 0
+        self._na3_reported = False
         sh.observers.append(self)
+        if not self.acc and not self.slotted:
+            mon.eoi_hooks.append(self.on_eoi)
 
     def tol(self, t):
         return TOL * max(1.0, abs(t))
@@ -82,6 +85,32 @@ class ConveyorOracle:
             if self.acc or (self._n_open is not None and now > self._n_open + self.tol(now)):
                 self.overlap_seen_at = now
         self.state = (n_ready, n_g)
+
+    def on_eoi(self, now):
+        """NA3 (hooked): while the head has been waiting unreserved at the exit of a non-accumulating belt for a
+        positive time, every item still travelling must be frozen (its move process interrupted)."""
+        if self.done or self._n_open is None or now <= self._n_open + 1e-6 or self._na3_reported:
+            return
+        if any(c >= self._n_open - self.tol(now) for c in self.cancel_times):
+            self.mon.counters["c13_na3_skipped_after_cancel"] += 1
+            return
+        try:
+            moving = []
+            for entry in self.sh.store.items:
+                it = entry[0]
+                ir = self.sh.held.get(id(it))
+                if ir is not None and getattr(ir, "in_stall", False):
+                    continue      # entered during the stall with an earlier reservation (tolerated)
+                if it.interruption_start_time is None:
+                    moving.append(getattr(it, "id", None))
+        except Exception:
+            self.mon.counters["c13_na3_skipped_no_hook"] += 1
+            return
+        self.mon.counters["c13_na3_checked"] += 1
+        if moving:
+            self._na3_reported = True
+            self.viol("C13", "NA3_item_moving_during_stall", "non-accumulating:item-not-frozen-while-the-belt-is-stopped",
+                      {"items": moving[:5], "stalled_since": self._n_open, "now": now})
 
     def on_put(self, sh, ir):
         now = ir.put_t
